@@ -186,7 +186,9 @@ theorem C14_fresh (R : Route) (c s p : Option Val) (ops : List Op) (sch : List E
 /-- **List atomicity.** For every set of concurrent AppendToList/RemoveFromList calls on one list, every
 schedule and every placement of persistent-tier failures: after all calls have returned, every element
 whose append succeeded (and that no call removes) is in the list, every element whose removal succeeded
-(and that no call appends) is not, and nothing else has appeared. -/
+(and that no call appends) is not, nothing else has appeared, and every initial member that no call
+removes is still there — in particular a call whose reload of the list hit a persistent-tier failure
+fails without writing (it does not take the failed read for an empty list). -/
 theorem C14_list (R : Route) (c s p : Option Val) (ops : List Op) (sch : List Entry)
     (wf : WF R ops sch) (hco : coherent R c s p = true) :
     holdsList (initVal R c s p) (model .repaired R c s p ops sch).ths
@@ -271,6 +273,19 @@ example : coherent (route (defaultStorage true false) "tunnox:user:k1") none non
 /-- The freshness predicate is not vacuously true: it rejects a stale read. -/
 example : holdsFresh (some (.str 1))
     [⟨.del, 1, 2, some .ok⟩, ⟨.get, 3, 3, some (.val (.str 1))⟩] .nf = false := by decide
+
+/-- The list predicate rejects a list whose initial members vanished although nobody removed them (an
+append that took a failed reload for an empty list and wrote `[7]`). -/
+example : holdsList (some (.list [1, 2])) [⟨.app 7, 1, 3, some .ok⟩] (.val (.list [7])) = false := by decide
+
+/-- … the model of the repaired code fails that call instead (persistent `Get` of the reload fails), and
+the members stay. -/
+example :
+    (model .repaired (route (defaultStorage true true) "tunnox:client_mappings:k1") none none (some (.list [1, 2]))
+      [.app 7] [⟨0, none⟩, ⟨0, some .persistent⟩]).fget = .val (.list [1, 2]) ∧
+    ((model .repaired (route (defaultStorage true true) "tunnox:client_mappings:k1") none none (some (.list [1, 2]))
+      [.app 7] [⟨0, none⟩, ⟨0, some .persistent⟩]).ths.map (·.res)) = [some .err] := by
+  decide +kernel
 
 /-- The list predicate rejects a lost append. -/
 example : holdsList (some (.list [1]))
